@@ -40,6 +40,13 @@ func buildSet(spec string) ([]*accessory.Accessory, error) {
 		if strings.Contains(a[1:], "5") {
 			info.ID = uint64(40 + i)
 		}
+		// explicit accessory ids beyond 2^53 (x: 2^53 + 2i, y: 2^53 + 2i + 1; ids are 64-bit): neighbours must stay different structures
+		if strings.Contains(a[1:], "x") {
+			info.ID = uint64(9007199254740992 + 2*i)
+		}
+		if strings.Contains(a[1:], "y") {
+			info.ID = uint64(9007199254740993 + 2*i)
+		}
 		var acc *accessory.Accessory
 		switch a[0] {
 		case 'b':
@@ -73,7 +80,7 @@ func buildSet(spec string) ([]*accessory.Accessory, error) {
 				first.Description = "described"
 			case '4':
 				first.Unit = characteristic.UnitPercentage
-			case '5':
+			case '5', 'x', 'y':
 			case '6':
 				main.Hidden = true
 			case '7':
